@@ -461,7 +461,7 @@ def replay(failure):
                 iv = act.inverse()
                 S2 = snapshot(tr)
                 ok2, why2 = lookups_ok(tr, lineage)
-                iv.inverse()
+                iv2 = iv.inverse()
                 S3 = snapshot(tr)
                 ok3, why3 = lookups_ok(tr, lineage)
                 r1 = r2 = True
@@ -469,6 +469,35 @@ def replay(failure):
         except Exception as e:
             return ob == "C01.inverse_applies", f"inverse raised {type(e).__name__}: {e}"
         detail = f"pre={_brief(S0)} post={_brief(S1)} undone={_brief(S2)} redone={_brief(S3)}"
+        if ob in ("C01.second_undo", "C01.second_redo", "C01.inverse_applies_again", "C02.second_undo_redo_return",
+                  "C02.second_round_stack_kept", "C02.repeated_undo_reaches_timeline_state",
+                  "C02.repeated_redo_reaches_timeline_state", "C02.repeated_undo_applies"):
+            try:
+                if is_user:
+                    r3 = tr.undo()
+                    S4 = snapshot(tr)
+                    r4 = tr.redo()
+                    S5 = snapshot(tr)
+                else:
+                    iv3 = iv2.inverse()
+                    S4 = snapshot(tr)
+                    iv3.inverse()
+                    S5 = snapshot(tr)
+                    r3 = r4 = True
+            except Exception as e:
+                return ob in ("C01.inverse_applies_again", "C02.repeated_undo_applies"), detail + f" second inverse raised {type(e).__name__}: {e}"
+            detail += f" undone_again={_brief(S4)} redone_again={_brief(S5)}"
+            table2 = {
+                "C01.second_undo": same_graph(S0, S4) and same_attrs(S0, S4),
+                "C01.second_redo": same_graph(S1, S5) and same_attrs(S1, S5),
+                "C02.repeated_undo_reaches_timeline_state": same_graph(S0, S4) and same_attrs(S0, S4),
+                "C02.repeated_redo_reaches_timeline_state": same_graph(S1, S5) and same_attrs(S1, S5),
+                "C02.second_undo_redo_return": r3 is True and r4 is True,
+                "C02.second_round_stack_kept": same_history(S1, S5),
+                "C01.inverse_applies_again": True,
+                "C02.repeated_undo_applies": True,
+            }
+            return (not table2[ob]), detail
         table = {
             "C01.undo_graph": same_graph(S0, S2),
             "C01.undo_attrs": same_attrs(S0, S2),
